@@ -62,7 +62,9 @@ OPTKEYS = ["month", "model", "site", "lam", "k1", "alpha_b", "x", "n_iter"]
 INTS = [0, 1, 2, 10, 11, 12, -1, 100, 7, 21, 20200101, 1000000, -1234567,
         20200102]
 STRS = ["a", "ab", "abc", "b", "x_1", "x_10", "GR4J", "gr", "Z", "a1",
-        "GR", "A", "z", "gr4j", "X_1"]      # ... and names differing by case
+        "GR", "A", "z", "gr4j", "X_1",      # ... and names differing by case
+        "\u00e9t\u00e9", "Is\u00e8re", "gr\u00f6\u00dfe",
+        "\u6cb3\u5ddd"]                     # identifiers need not be ASCII
 FLOATS = [0.5, 2.5, -1.5]
 
 
@@ -222,7 +224,8 @@ def gen_context(cs, lab):
     for j in range(n):
         key = ["basin", "version", "flags", "meta"][j]
         v = cs.choice(f"{lab}.v{j}", [1, "murray", 2.5, [1, 2, 3],
-                                      {"a": 1, "b": "x"}, True, "v_2", 0])
+                                      {"a": 1, "b": "x"}, True, "v_2", 0,
+                                      "Is\u00e8re", "\u6cb3\u5ddd"])
         ctx[key] = copy.deepcopy(v)
     return ctx
 
@@ -718,6 +721,14 @@ def run(cs, log, ctx):
         # ---- the fleet
         sim = Sim(cs, log, ctx, max_steps=20000)
         fs = SimFS(sim, ctx, work, bufsize)
+        # the default text encoding of the processes (their locale): files
+        # opened without an explicit encoding are written and read with it
+        fs.default_encoding = cs.weighted("default_encoding",
+                                          [("utf-8", 5), ("ascii", 2),
+                                           ("cp1252", 1), ("latin-1", 1)])
+        log.ev("default_encoding", fs.default_encoding)
+        if fs.default_encoding != "utf-8":
+            ctx.hit("fault.default_text_encoding_not_utf8")
         sim.fs = fs
         sim.fault_rates = {"crash": crash_rate, "delay": delay_rate}
         sim.fault_budget = budget
